@@ -368,6 +368,9 @@ pub const SOURCE_KINDS: &[&str] = &[
     "builtin-flag-in-custom",
     "builtin-child-of-custom",
     "custom-section-named-as-builtin",
+    "repeat-mention-same-list",
+    "repeat-mention-other-list",
+    "repeat-mention-as-child",
 ];
 
 struct Builder<'a> {
@@ -552,6 +555,70 @@ impl<'a> Builder<'a> {
                     _ => {
                         let which = (*rng.pick(&["cli", "env", "main"])).to_string();
                         self.insert_in_list(rng, &which, b);
+                    }
+                }
+            }
+            "repeat-mention-same-list" | "repeat-mention-other-list" | "repeat-mention-as-child" => {
+                // a feature that is already enabled somewhere is named a second time: the
+                // documentation says the later (lower-priority) encounter is ignored
+                let lists: Vec<(&str, Vec<String>)> = vec![
+                    ("cli", self.p.cli_features.clone().unwrap_or_default()),
+                    (if self.p.env_features.as_ref().map(|e| e.0).unwrap_or(false) { "plusenv" } else { "env" }, self.p.env_features.as_ref().map(|e| e.1.clone()).unwrap_or_default()),
+                    ("main", self.p.main.features.clone().unwrap_or_default()),
+                    ("envparam", self.p.envparam_features.clone().unwrap_or_default()),
+                ];
+                let nonempty: Vec<&(&str, Vec<String>)> = lists.iter().filter(|(_, l)| !l.is_empty()).collect();
+                if nonempty.is_empty() {
+                    return false;
+                }
+                let (which, l) = (*rng.pick(&nonempty)).clone();
+                let name = rng.pick(&l).clone();
+                match kind {
+                    "repeat-mention-same-list" => {
+                        // make sure something else sits in between: add one more valued feature first
+                        let other = self.new_custom();
+                        let v = self.value(rng);
+                        self.p.custom.insert(other.clone(), Section { value: Some(v), ..Default::default() });
+                        let lm = self.list_mut(which);
+                        let pos = lm.iter().position(|x| *x == name).unwrap_or(0);
+                        // other right after the first mention, the repeat at either end
+                        lm.insert(pos + 1, other);
+                        if rng.chance(1, 2) {
+                            lm.push(name);
+                        } else {
+                            lm.insert(0, name);
+                        }
+                    }
+                    "repeat-mention-other-list" => {
+                        let other_list = (*rng.pick(&["cli", "env", "plusenv", "main"])).to_string();
+                        let other = self.new_custom();
+                        let v = self.value(rng);
+                        self.p.custom.insert(other.clone(), Section { value: Some(v), ..Default::default() });
+                        // force insertion even though the name exists elsewhere
+                        let ol = if (other_list == "env" || other_list == "plusenv") && self.p.env_features.is_some() { if self.p.env_features.as_ref().unwrap().0 { "plusenv".to_string() } else { "env".to_string() } } else { other_list };
+                        let lm = self.list_mut(&ol);
+                        let pos = rng.range(0, lm.len());
+                        lm.insert(pos, other);
+                        let pos = rng.range(0, lm.len());
+                        lm.insert(pos, name);
+                    }
+                    _ => {
+                        let parent = self.new_custom();
+                        let other = self.new_custom();
+                        let v = self.value(rng);
+                        self.p.custom.insert(other.clone(), Section { value: Some(v), ..Default::default() });
+                        let mut kids = vec![name];
+                        if rng.chance(1, 2) {
+                            kids.insert(rng.range(0, 1), other.clone());
+                        }
+                        self.p.custom.insert(parent.clone(), Section { value: None, features: Some(kids), flags: vec![] });
+                        let lm = self.list_mut(which);
+                        let pos = rng.range(0, lm.len());
+                        lm.insert(pos, parent);
+                        if !lm.contains(&other) && rng.chance(1, 2) {
+                            let pos = rng.range(0, lm.len());
+                            lm.insert(pos, other);
+                        }
                     }
                 }
             }
@@ -890,7 +957,7 @@ pub fn main_c13(env: &Env, tier: &str, seed: u64, replay: Option<&str>) -> i32 {
     }
     ev.evaluations = runs;
     ev.distinct_nontrivial = distinct.len() as u64;
-    ev.rule = "one evaluation = one `delta ... --show-config` execution of the real binary with a generated gitconfig/args/environment under one hash seed; a placement sets one probe option from 1-5 sources drawn from 18 source kinds; the lattice part enumerates every single kind and every unordered pair of kinds for each of 9 probe options (both construction orders) plus --no-gitconfig against every kind; the rest is seeded sampling. distinct_nontrivial counts distinct placements (every placement has at least one source, i.e. something for precedence to decide).".into();
+    ev.rule = "one evaluation = one `delta ... --show-config` execution of the real binary with a generated gitconfig/args/environment under one hash seed; a placement sets one probe option from 1-5 sources drawn from 21 source kinds; the lattice part enumerates every single kind and every unordered pair of kinds for each of 9 probe options (both construction orders) plus --no-gitconfig against every kind; the rest is seeded sampling. distinct_nontrivial counts distinct placements (every placement has at least one source, i.e. something for precedence to decide).".into();
     ev.counters.insert("placements".into(), placements.len() as u64);
     ev.counters.insert("lattice_placements".into(), n_lattice as u64);
     ev.counters.insert("hash_seeds_per_placement".into(), (hash_seeds.len() + 1) as u64);
